@@ -100,7 +100,7 @@ fn enabled(net: &Net) -> Vec<String> {
     }
     // a sync report arrives from the peer (handled by the real `on_sync_report`): heads variant v
     for n in 0..2 {
-        for v_ in 0..6 {
+        for v_ in 0..7 {
             v.push(format!("report {n} {v_}"));
         }
     }
@@ -133,7 +133,7 @@ impl Property for C11 {
         false
     }
     fn rule(&self) -> String {
-        "schedules of 4-40 scheduler actions over two real live actors and one document (both syncing, or one of them not): dial decisions (new neighbour / sync report) by either node, sync reports handled by the real on_sync_report (heads older, equal, newer than the entry held, an unknown author, no heads, undecodable bytes; dial exactly on news), delivery or loss of the oldest outstanding request, processing of connect-task completions (declined AlreadySyncing / NotFound, failed to connect, session end ok or failed), of accept-task completions and of declined-accept completions, each chosen among the currently enabled actions; dials are weighted down so that completions catch up; non-trivial = at least 2 dials and one session or one decline; distinct = distinct concrete schedules".into()
+        "schedules of 4-40 scheduler actions over two real live actors and one document (both syncing, or one of them not): dial decisions (new neighbour / sync report) by either node, sync reports handled by the real on_sync_report (heads older, equal, newer than the entry held, an unknown author (also with timestamp 0), no heads, undecodable bytes; dial exactly on news), delivery or loss of the oldest outstanding request, processing of connect-task completions (declined AlreadySyncing / NotFound, failed to connect, session end ok or failed), of accept-task completions and of declined-accept completions, each chosen among the currently enabled actions; dials are weighted down so that completions catch up; non-trivial = at least 2 dials and one session or one decline; distinct = distinct concrete schedules".into()
     }
     fn corpus(&self) -> Vec<(String, Vec<Op>)> {
         let acts = |v: &[&str]| -> Vec<Op> {
@@ -242,6 +242,7 @@ impl Property for C11 {
                             1 => { h.insert(author_a.id(), 10); (format!("{}=10", hex(author_a.id().as_bytes())), false) }
                             2 => { h.insert(author_a.id(), 11); (format!("{}=11", hex(author_a.id().as_bytes())), true) }
                             3 => { h.insert(author_b.id(), 1); (format!("{}=1", hex(author_b.id().as_bytes())), true) }
+                            6 => { h.insert(author_b.id(), 0); (format!("{}=0", hex(author_b.id().as_bytes())), true) }
                             _ => ("-".to_string(), false),
                         };
                         let bytes = if v == 5 { vec![0xFF, 0xFF, 0xFF] } else { h.encode(None)? };
